@@ -255,7 +255,8 @@ def run(res):
             stats["race_reports"] += len(reports)
             crashed = cres is None
             if crashed:
-                txt = cerr[-3000:]
+                m0 = re.search(r"^(fatal error: |panic: )", cerr, re.M)
+                txt = cerr[m0.start():m0.start() + 6000] if m0 else cerr[-3000:]
                 kn = known_ok and any(f in txt for f in ("createTypeConverter", "getTypeConverter", "GetConverter", "newGoType"))
                 item = dict(case, why="the process running the concurrent evaluations died (exit %s): %s" % (
                     rc, (re.search(r"fatal error: [^\n]*", txt) or re.search(r"panic: [^\n]*", txt) or [txt[-200:]])[0]),
